@@ -9,7 +9,8 @@ EXPLANATION = ("TermFlow with a symbolic limit: every arena entry point that can
                "exactly the amount the acquirer adds to the arena's byte counter for this chunk (term taken from the footer aggregate) and allocated_bytes is the counter of the arena "
                "being extended as read by the code (so: n == 0 or allocated_bytes + n <= LIMIT). The same entry is analysed with allocation_limit = None and must still reach the "
                "acquirer unconditionally. Frame rules: the fast path / dealloc / shrink / grow never read the limit (a request that fits succeeds whatever the limit); "
-               "set_allocation_limit stores exactly its argument into the field that allocation_limit() and the headroom computation load.")
+               "set_allocation_limit stores exactly its argument into the field that allocation_limit() and the headroom computation load."
+               ' (R7) the counter compared with the limit satisfies J4; (R8) the fast path refuses only requests strictly larger than the space left (a request that fits succeeds whatever the limit); (R9) with allocation_limit = None the small-limit bypass of the minimum chunk size is dead.')
 RULE = "rule instance = (rule, entry point, acquire site); distinct by (rule, entry, site)"
 
 LIMIT = sym('LIMIT')
